@@ -466,7 +466,7 @@ fn unrelated_peer(bytes: &[u8; 32]) -> PeerId {
     PeerId::from_bytes(&v).expect("sha2-256 multihash is a valid peer id")
 }
 
-fn quote_case_strategy() -> BoxedStrategy<QuoteCase> {
+pub fn quote_case_strategy() -> BoxedStrategy<QuoteCase> {
     let muts = prop_oneof![
         2 => Just(vec![]),
         10 => any_mutation().prop_map(|m| vec![m]),
@@ -492,7 +492,7 @@ fn quote_case_strategy() -> BoxedStrategy<QuoteCase> {
         .boxed()
 }
 
-fn check_quote(c: &QuoteCase, ctx: &mut Ctx) {
+pub fn check_quote(c: &QuoteCase, ctx: &mut Ctx) {
     let mut base = c.base.clone();
     base.key %= KEYS;
     let now = now_secs();
@@ -664,7 +664,7 @@ fn undecodable_bytes() -> BoxedStrategy<Vec<u8>> {
     .boxed()
 }
 
-fn proof_case_strategy() -> BoxedStrategy<ProofCase> {
+pub fn proof_case_strategy() -> BoxedStrategy<ProofCase> {
     let entry = |valid_w: u32, tamper_w: u32| {
         (
             quote_strategy(KEYS),
@@ -722,7 +722,7 @@ fn proof_case_strategy() -> BoxedStrategy<ProofCase> {
         .boxed()
 }
 
-fn check_proof(c: &ProofCase, ctx: &mut Ctx) {
+pub fn check_proof(c: &ProofCase, ctx: &mut Ctx) {
     let now = now_secs();
     let mut peer_quotes = vec![];
     let mut verdicts: Vec<Tri> = vec![];
@@ -957,7 +957,7 @@ pub struct HistCase {
     pub new_close_records_stored: u64,
 }
 
-fn hist_strategy() -> BoxedStrategy<HistCase> {
+pub fn hist_strategy() -> BoxedStrategy<HistCase> {
     let rel = |base: u64| {
         prop_oneof![
             3 => Just(base),
@@ -987,7 +987,7 @@ fn hist_strategy() -> BoxedStrategy<HistCase> {
         .boxed()
 }
 
-fn check_hist(c: &HistCase, ctx: &mut Ctx) {
+pub fn check_hist(c: &HistCase, ctx: &mut Ctx) {
     let now = SystemTime::now();
     let shift = |age_ms: i64| {
         if age_ms >= 0 {
@@ -1081,5 +1081,8 @@ pub fn run(cfg: RunCfg) {
     // simulator of vh-store and runs there as a child (built by harness/pre-C13.sh)
     let exe = rep.cfg.root.join("harness/target/release/vh-store");
     vh_core::run_child(&mut rep, &exe, "driver-side quote history (vh-store child)");
+    vh_core::fuzz_section!(rep, "quote_mutations", quote_case_strategy, check_quote, "sec_protocol", "protocol", 300_000, 150, 6);
+    vh_core::fuzz_section!(rep, "proof_truth_table", proof_case_strategy, check_proof, "sec_protocol", "protocol", 200_000, 150, 6);
+    vh_core::fuzz_section!(rep, "historical_verify", hist_strategy, check_hist, "sec_protocol", "protocol", 200_000, 100, 4);
     rep.finish();
 }
